@@ -95,7 +95,7 @@ enum Cmd {
 }
 
 #[derive(Clone, Copy, Debug, PartialEq, Eq, Hash, PartialOrd, Ord)]
-enum WState {
+pub enum WState {
     AtWait,
     InRecv,
     AtGot,
@@ -105,7 +105,7 @@ enum WState {
 }
 
 #[derive(Clone, Copy, Debug, PartialEq, Eq, Hash, PartialOrd, Ord)]
-enum AState {
+pub enum AState {
     Idle,
     At(PoolEventK),
 }
